@@ -379,11 +379,15 @@ def run(db, chk):
     for f in unit.fns.values():
         pass
     from ..sir import walk
-    for n in walk(set_st.body):
-        if n.get("k") == "ref" and n.get("rk") == "enum" and n.get("cv") is not None:
-            status[n["n"]] = n["cv"]
+    for f in [set_st] + sorted(unit.fns.values(), key=lambda f: f.fid):
+        for n in walk(f.body):
+            if n.get("k") == "ref" and n.get("rk") == "enum" and n.get("cv") is not None and \
+                    "node_status" in f.type(n.get("t")):
+                status.setdefault(n["n"], n["cv"])
+        if "fixed_value" in status and "core" in status:
+            break
     if "fixed_value" not in status or "core" not in status:
-        raise AnalysisBroken("C18: node_status enumerators not found in set_nodes_status (%r)" % status)
+        raise AnalysisBroken("C18: node_status enumerators not found in the trimesh unit (%r)" % status)
     FIXED, CORE = status["fixed_value"], status["core"]
     n_sc = 0
 
